@@ -80,13 +80,17 @@ def make_pairs(seed, n):
             keys = g.total_order(st, 1)
             if not keys:
                 continue
-            n1, k1, n2, k2 = r.choice([1, 3, 5, 8]), r.choice([0, 1, 2]), r.choice([1, 2, 4, 9]), r.choice([0, 1, 3, 6])
+            # chains of two or three slices, limits of 0 and windows that become empty included (an accumulated limit of
+            # 0 is a state of its own in the SQL compiler); the pair ends with the slices, so F16 (a verb AFTER
+            # slice_head(0)) is not met
+            links = [(r.choice([0, 1, 2, 3, 5, 8]), r.choice([0, 1, 2, 3])) for _ in range(r.choice([2, 2, 3]))]
             sa.append(["arrange", keys]); sb.append(["arrange", keys])
-            sa.append(["slice_head", n1, k1]); sa.append(["slice_head", n2, k2])
-            nn = min(max(n1 - k2, 0), n2)
-            if nn == 0:
-                continue        # slice_head(0) is finding F16's region
-            sb.append(["slice_head", nn, k1 + k2])
+            nn, kk = links[0]
+            sa.append(["slice_head", nn, kk])
+            for n2, k2 in links[1:]:
+                sa.append(["slice_head", n2, k2])
+                nn, kk = min(max(nn - k2, 0), n2), kk + k2
+            sb.append(["slice_head", nn, kk])
             flags["ordered"] = True
         elif kind == "inner_cross_filter":
             if not ints:
